@@ -9,6 +9,7 @@
 #include "mp/flat/redef/MIP/abs.h"
 #include "mp/flat/redef/MIP/ifthenelse.h"
 #include "mp/flat/redef/MIP/logical_not.h"
+#include "mp/flat/redef/MIP/count.h"
 extern "C" {
 void vf_rc_lin(int kind, int n, const double* coefs, const int* vars, double rhs);                       // kind: -1 <=, 0 ==, 1 >=
 void vf_rc_ind(int bvar, int bval, int kind, int n, const double* coefs, const int* vars, double rhs);  // bvar == bval  ==>  linear constraint
@@ -28,6 +29,8 @@ struct MC {
   int AddVar(double lb, double ub, mp::var::Type t) { return vf_rc_addvars(1, lb, ub, t == mp::var::INTEGER); }
   bool is_fixed(int) const { return false; }      // then / else are (non-fixed) variables
   double fixed_value(int) const { return 0; }
+  bool is_binary_var(int) const { return true; }      // count: the arguments are binary variables (the reifying branch for other arguments is outside the claim)
+  template <class FC> int AssignResultVar2Args(FC&&) { __builtin_trap(); }
   int AssignResultVar2Args(mp::LinearFunctionalConstraint&& fc) { const auto& ae = fc.GetAffineExpr(); return vf_rc_defvar((int)ae.size(), ae.coefs().data(), ae.vars().data(), ae.constant_term()); }
 };
 #define W extern "C" __attribute__((noinline))
@@ -45,6 +48,7 @@ W int w_convert(int which, int nargs, int ctx, double rlb, double rub) {
       case 1: return run<mp::OrConstraint, mp::OrConverter_MIP<MC> >(mc, nargs, ctx);
       case 2: return run<mp::MinConstraint, mp::MinConverter_MIP<MC> >(mc, nargs, ctx);
       case 3: return run<mp::MaxConstraint, mp::MaxConverter_MIP<MC> >(mc, nargs, ctx);
+      case 7: return run<mp::CountConstraint, mp::CountConverter_MIP<MC> >(mc, nargs, ctx);
       case 6: { mp::NotConstraint c({0}); c.SetResultVar(1); c.SetContext(mp::Context((mp::Context::CtxVal)ctx)); mp::NotConverter_MIP<MC> cvt(mc); cvt.Convert(c, 0); return 0; }
       case 5: { mp::IfThenConstraint c({0, 1, 2}); c.SetResultVar(3); c.SetContext(mp::Context((mp::Context::CtxVal)ctx)); mp::IfThenElseConverter_MIP<MC> cvt(mc); cvt.Convert(c, 0); return 0; }
       case 4: { mp::AbsConstraint c({0}); c.SetResultVar(1); c.SetContext(mp::Context((mp::Context::CtxVal)ctx)); mp::AbsConverter_MIP<MC> cvt(mc); cvt.Convert(c, 0); return 0; }
